@@ -364,11 +364,85 @@ def run(ctx):
     for v_ in sub.violations:
         res.violation("C03:overlapping-requests:" + v_["key"].split(":")[-1], "a request overlapping another one is not answered with the response it gets alone",
                       v_["input"], observed=v_["observed"], required=v_["required"], replay=dict(v_["replay"] or {}, handlers="shipped"))
+    log_functions(ctx, res)
     res.degraded = list(pyg.degraded) + [d for d in res.degraded if d not in pyg.degraded]
     return res
 
 
+def log_functions(ctx, res):
+    """The two logging functions on text decoded from arbitrary bytes: what log_syslog hands to syslog.syslog() (which takes
+    no NUL and nothing UTF-8 cannot encode) and what log_file writes, against Model/Log; neither may raise."""
+    import io as _io
+    import sys as _sys
+    from pygopherd import logger
+    rng = ctx.rng
+    corpus = [b"plain", b"", b"'/caf\xe9-dangling.txt' does not exist", b"/a\x00b", b"\x00", b"\xe2\x82", b"\xf0\x9f\x98", b"\xc0\xaf", b"\xed\xa0\x80",
+              "\u00e9\u20ac\U0001f600 ok".encode(), b"\xff\xfe\x00\x01", b"tab\there\r\nnext", b"100% %s %d {0}", b"\x80" * 5, b"a\xe9\x00\xe9b"]
+    corpus += [bytes([b]) for b in range(256)]
+    for _ in range(ctx.n(150, 3000)):
+        corpus.append(bytes(rng.choice([0, 9, 10, 37, 65, 92, 0x80, 0xbf, 0xc2, 0xe2, 0x82, 0xac, 0xed, 0xa0, 0xf0, 0x9f, 0xff, rng.randrange(256)])
+                            for _ in range(rng.randint(1, 12))))
+    lines, impl = [], []
+    saved = (getattr(logger, "syslogfunc", None), getattr(logger, "priority", None))
+    try:
+        for bs in corpus:
+            m = bs.decode("utf-8", "surrogateescape")
+            got = []
+            logger.syslogfunc = lambda prio, t: (pyg._syslog_standin(prio, t), got.append(t))
+            logger.priority = 0
+            try:
+                logger.log_syslog(m)
+                sy = got[0] if got else None
+            except Exception as e:  # noqa
+                sy = e
+            class _Out:      # noqa
+                buffer = _io.BytesIO()
+            old = _sys.stdout
+            _sys.stdout = _Out
+            try:
+                logger.log_file(m)
+                fl = _Out.buffer.getvalue()
+            except Exception as e:  # noqa
+                fl = e
+            finally:
+                _sys.stdout = old
+            res.evaluations += 2
+            if bs and (max(bs) > 127 or 0 in bs):
+                res.nontrivial.add(("log", bs))
+            for which, val in (("syslog", sy), ("file", fl)):
+                if isinstance(val, Exception) or val is None:
+                    res.violation("C03:logging-raises:" + which, "a logging function raised on text decoded from request bytes (the request is left without a response)",
+                                  {"bytes": bs, "function": "log_" + which}, observed=repr(val), required="a log line", replay={"log_bytes_latin1": bs.decode("latin-1")})
+            lines.append("syslogtext\t" + enc_str(m))
+            impl.append(("syslog", bs, sy))
+            lines.append("logfilebytes\t" + enc_str(m))
+            impl.append(("file", bs, fl))
+    finally:
+        if saved[0] is not None:
+            logger.syslogfunc, logger.priority = saved
+    outs = ctx.driver.run(lines)
+    from leanio import dec_opt
+    for (which, bs, val), o in zip(impl, outs):
+        if isinstance(val, Exception) or val is None:
+            continue
+        if which == "syslog":
+            model = dec_str(o)
+            if model != val:
+                res.disagree("C03.syslogtext", {"bytes": bs}, model[:200], val[:200])
+        else:
+            mo = dec_opt(o)
+            model = None if mo is None else mo.encode("latin-1") if all(ord(c) < 256 for c in mo) else mo
+            if model != val:
+                res.disagree("C03.logfilebytes", {"bytes": bs}, str(model)[:200], str(val)[:200])
+
+
 def replay(data):
+    if "log_bytes_latin1" in (data["violation"].get("replay") or {}):
+        from pygopherd import logger
+        m = data["violation"]["replay"]["log_bytes_latin1"].encode("latin-1").decode("utf-8", "surrogateescape")
+        logger.syslogfunc, logger.priority = (lambda p, t: (pyg._syslog_standin(p, t), print(repr(t)))), 0
+        logger.log_syslog(m)
+        return 0
     rp = data["violation"]["replay"]
     if rp.get("forced"):
         print("overlapping requests, forced as in harness/props/c14.py forced_interleavings:", rp)
